@@ -87,6 +87,7 @@ func union(es ...[]cfgx.Edge) []cfgx.Edge {
 
 func c08(c *Ctx) {
 	c08claim(c)
+	c08finalizers(c)
 	// the deletion branch finds the XR through the claim's resourceRef: an XR that exists
 	// before the claim durably names it is invisible to teardown
 	claimRecordsFirst(c, c.method(pkgClaim, "ServerSideCompositeSyncer", "Sync"), c.method(pkgClaim, "ClientSideCompositeSyncer", "Sync"), "R8.7", "R8.8")
@@ -558,4 +559,30 @@ func regNilEdges(fn *ssa.Function) (isNil, notNil []cfgx.Edge) {
 		}
 	}
 	return
+}
+
+// c08finalizers: the two controllers that tear an XRD down (definition: XR CRD and
+// XR controller; offered: claim CRD and claim controller) each hold their own
+// finalizer on the XRD. With one shared name the half that finishes first
+// releases the XRD while the other half's CRD and controller still exist.
+func c08finalizers(c *Ctx) {
+	c.R.Rule("R8.9", "the XRD controllers hold distinct finalizers", 1, "the XRD is finalized when the first of the two teardowns is done: the other CRD, its instances and its controller outlive it")
+	vals := map[string]string{}
+	for _, pp := range []string{"internal/controller/apiextensions/definition", "internal/controller/apiextensions/offered"} {
+		pkg := c.P.SSAPkgs[xp+pp]
+		if pkg == nil {
+			continue
+		}
+		if k, ok := pkg.Members["finalizer"].(*ssa.NamedConst); ok && k.Value != nil {
+			if s, isS := cfgx.ConstString(k.Value); isS {
+				vals[pp] = s
+			}
+		}
+	}
+	if len(vals) != 2 {
+		c.R.Unknown("finalizer constants", "", "expected a finalizer constant in the definition and the offered controller")
+		return
+	}
+	a, b := vals["internal/controller/apiextensions/definition"], vals["internal/controller/apiextensions/offered"]
+	c.R.Check(a != b && a != "" && b != "", "definition/offered finalizer names", "", "the two finalizers differ ("+a+", "+b+")", "the definition and the offered controller use the same finalizer name "+a+": either of them releases the XRD for both")
 }
